@@ -89,7 +89,10 @@ CHECKS = {
        "spec_accepts (well-formed, fits the data rate, reference MIC for the fresh counter) -- otherwise identity -- and then remembers n, decrypts with n, restarts the ADR count. "
        "Tied to the code: the real next_fcnt_down (hook) against the model on digests of all 2^16 wire values for `last` on a stride through +-70000 of every boundary class; "
        "MAC-level histories (model vs Mac through the hook, state snapshot after every step) with counters walking across 16-bit epochs up to 2^32-1, replays, reordering, "
-       "far-future, wrong-epoch MIC and forged frames, Class A and C paths; every response also judged by an independent python reference (own AES-CMAC).",
+       "far-future, wrong-epoch MIC and forged frames, Class A and C paths; every response also judged by an independent python reference (own AES-CMAC), which also recomputes the delivered payload under the accepted counter. Along whole "
+       "histories (C05_nb_downlinks_strictly_increase, Proofs/DownHistory.v): within a session, over EVERY sequence of nb_device events (send requests, radio events with any answer and any "
+       "received bytes, timeouts, a fault at any radio call) the counters reported as DownlinkReceived are strictly increasing and above the last accepted one -- no frame acted on twice, never "
+       "backwards; the nb_device model is tied to the code by front-end histories with valid / replayed / foreign / oversized / junk frames.",
   note=COMMON_NOTE + "Hook lorawan_device::mac::verif (cfg lora_rs_verif) drives the crate-private Mac and dumps its state; it only copies fields.",
   tech="machine-checked proof in Coq (counter arithmetic for all inputs; acceptance = reference rule) + MAC-history correspondence through a read-only hook + independent reference oracle", ref="6 C05"),
  "C06": dict(
